@@ -10,7 +10,24 @@ RULE = ("edit histories (same operation alphabet as C06, 1..8 operations, raw ob
         "11 seed configs, banner/macro-bearing random configs and plain random configs; all four syntaxes; ignore_blank_lines on/off; "
         "auto_commit on, or off with explicit commits and search probes in between. After every step on a committed state the full "
         "dump (texts, line numbers, parents, stored child lists) is compared with a from-scratch CiscoConfParse of the same texts "
-        "and options; a double commit is appended to every history. non-trivial = at least one successful mutation; distinct by request.")
+        "and options; a double commit is appended to every history. "
+        "Coverage streams (harness/covreport.py, notes/coverage/C07.json; runner props/edit7.py, model Ccp.Model.EditX, channel editx): "
+        "900 more histories over the EXTENDED alphabet -- ConfigList.remove(obj); obj.delete() on an object that is no longer in the "
+        "list (auto_commit off, popped / deleted meanwhile -> ConfigListItemDoesNotExist); payloads handed over as line objects "
+        "instead of strings (insert, insert_before/after, obj.insert_before/after, append_to_family); malformed calls "
+        "(insert(<not an int>, ..) -> ValueError, insert(k, None / 5 / [..] / bytes) -> TypeError, insert_before/after(regex, <bad "
+        "value>) -> ValueError, remove(<not a line object>) -> InvalidParameters: state must not change); and search probes of all 16 "
+        "guarded entry points (find_objects, find_object_branches, find_parent_objects, find_parent_objects_wo_child, "
+        "find_child_objects, CiscoConfParse.re_search_children / re_match_iter_typed, and on a line object all_parents, lineage, "
+        "geneology, re_match, re_search, re_search_children, re_match_typed, re_match_iter_typed, re_list_iter_typed), nine argument "
+        "forms each (string / [string] / compiled / line-object specs, list and two-argument forms, exactmatch, ignore_ws, "
+        "escape_chars, recurse, reverse, regex_groups, empty_branches). Every third history is 'stale-probe': auto_commit off, a list "
+        "insert or family append, 0..2 operations that are not a commit, 2..4 probes of random kinds (must all refuse), commit, the "
+        "same probes (must all answer, and only with line objects of the committed list). 30 % of these histories run under one more "
+        "parse option set: debug 1/2 (the 'if debug' statements of delete / append / insert_after), tuple config, "
+        "auto_indent_width 1/2/3/4/8 (an input of the model: append_to_family's indent unit). The oracle also requires that remove / "
+        "delete take exactly the line and its descendants out of the list. "
+        "non-trivial = at least one successful mutation; distinct by request.")
 LEVEL_TEXT = ("Theorems (Lean 4, Ccp.Props.C07, every config, option set and history): bootstrap is idempotent on its own output (also with "
               "ignore_blank_lines: the re-bootstrapping loop ends in a fixed point of the blank-line filter; it only ever drops blank lines), "
               "hence parse = one bootstrap; commit of any state yields tree = parse(texts), texts = tree.texts, flags cleared; commit is "
@@ -20,10 +37,32 @@ LEVEL_TEXT = ("Theorems (Lean 4, Ccp.Props.C07, every config, option set and his
               "successful append_to_family makes the state stale, staleness survives every operation except commit, a search probe raises "
               "NotImplementedError exactly when stale, and answers again after commit; nothing else makes a state stale. Line numbers are "
               "positions and child lists are derived from the parent indices in the model's tree, so tree equality is equality of texts, line "
-              "numbers, parents and children. Tied to the code by differential runs of histories.")
+              "numbers, parents and children. EXTENDED ALPHABET (Ccp.Model.EditX embeds the base operations unchanged -- base_embedded -- "
+              "and adds ConfigList.remove, delete of an object that is gone, one probe per guarded search entry point, list-level inserts "
+              "with a line-object payload, four malformed calls): stepX_preserves_fresh, runX_committed_fresh, autoX_commit_always_fresh, "
+              "explicit_commitX_fresh -- the invariant 'no uncommitted change => tree = parse(texts)' holds in every state reached by any "
+              "history over the extended alphabet, after every single operation with auto_commit on, and directly after an explicit commit; "
+              "remove_is_delete / remove_spec -- remove(obj) is obj.delete(): on a committed state it succeeds and takes exactly the object "
+              "and its descendants out; deleteAny_gone / deleteAny_present -- delete on an object that left the list raises "
+              "ConfigListItemDoesNotExist and changes nothing; malformed_rejected -- each malformed call raises the code's error class and "
+              "changes nothing; listInsObj_spec -- a line-object payload is inserted even when blank under ignore_blank_lines (the string "
+              "form is refused), otherwise it is the string form; search_refuses_iff_stale_partial -- each of the FIFTEEN guarded entry "
+              "points never changes the state, raises NotImplementedError exactly when stale and answers otherwise; staleX_refuses -- "
+              "after a list insert and any extended operations other than commit every guarded search refuses, after commit it answers. "
+              "PARTIAL: the full statement (all sixteen entry points) is false for the code as it is -- guarded_all_but_one, "
+              "search_unguarded_answers: CiscoConfParse.re_match_iter_typed has no guard (known finding FC07a). "
+              "Tied to the code by differential runs of histories.")
 LEVEL_NOTE = ("Trusted: Lean kernel, standard axioms, harness. The integer checkpoint is abstracted to a boolean (assumes the sum of line "
               "identifiers changes when a line is inserted; a 64-bit hash collision is not modelled). All C07 theorems of DESIGN.md are proved "
-              "at full strength; nothing is partial.")
+              "at full strength; the one partial theorem is search_refuses_iff_stale_partial of the extended alphabet (the code lacks the guard "
+              "in CiscoConfParse.re_match_iter_typed: FC07a, notes/proposed-fixes/C07-1.patch + C07-1.model-followup.patch). The model has ONE "
+              "probe behaviour for all guarded searches (each starts with the same guard); which entry points carry the guard, and that the "
+              "find_* guards of find_parent_objects / find_child_objects / find_parent_objects_wo_child are shadowed by the guards of the "
+              "searches they call, is measured by the probe stream. What the searches ANSWER is C04's subject, not compared here (only: "
+              "answers on a committed state consist of objects of that commit). Anchored statements never executed by the quick run: 335 of "
+              "651 before the coverage streams, 112 after (dead branches of append_to_family, factory=True branches -- factory is outside "
+              "C07's quantifier --, argument validation of the searches and of ConfigList.__init__, delete() with a stale line number on an "
+              "uncommitted state -- excluded by the assumption below).")
 ASSUMPTIONS = ["hash((linenum, text)) sums differ after an insertion (no 64-bit collision)", "object handles are used only on a committed state"]
 TRUSTED = ["regex oracle rows / substituted texts"]
 EXHAUSTIVE = {"quick": False, "thorough": False}
